@@ -91,10 +91,12 @@ def execute(case):
     I = case["I"]
     n = len(I["tasks"])
     objs = {}
-    two_step = case["id"] % 2 == 1          # history: query, change estimates and dependencies, query again
+    # history: query, then change (1) only dependencies, (2) only estimates, (3) both, and query again
+    mode = case["id"] % 4
+    two_step = mode != 0
     for i, t in enumerate(I["tasks"], start=1):
         e = case["vals"].get("%d.est" % i)
-        if two_step and i % 2:
+        if mode in (2, 3) and i % 2:
             e = (e or 0) + 1
         objs[i] = pj.Task(t["id"], name="T%d" % i, estimate=e, spent=case["vals"].get("%d.spent" % i))
     w = pj.WBS()
@@ -105,13 +107,20 @@ def execute(case):
             attach(objs[c].children, I["tasks"][c - 1]["kids"])
 
     attach(w.roots, I["roots"])
+
+    def link():
+        for i, t in enumerate(I["tasks"], start=1):
+            if t["pre"]:
+                objs[i].predecessors = [objs[p] for p in t["pre"]]
+
+    if mode == 2:
+        link()
     if two_step:
         es.guarded(lambda: [t for t in w.critical_path()], 5.0)
         for i, t in enumerate(I["tasks"], start=1):
             objs[i].estimate = case["vals"].get("%d.est" % i)
-    for i, t in enumerate(I["tasks"], start=1):
-        if t["pre"]:
-            objs[i].predecessors = [objs[p] for p in t["pre"]]
+    if mode != 2:
+        link()
     case["before"] = es.project_wbs(w)
     num = {id(o): i for i, o in objs.items()}
     out, res = es.guarded(lambda: [t for t in w.critical_path()], 5.0)
